@@ -227,7 +227,8 @@ Proof. exact Gengo.Props.Tables.Tables_determinism_table_order_independent. Qed.
 Print Assumptions C04_table_order_independent_from_C13.
 
 (* this file's MethodsOf (before and after the ordering repair) = C13's MethodsOf(n, true) up to C13_methods's
-   permutation; with the ordering applied to C13's list ([T.sorted_methods_of]) the two are equal *)
+   permutation (on the tables of the loop alone); on the tables newPkg leaves behind ([Uni.new_pkg_tables]: loop, then
+   the ordering of package.go:146-157) the two are equal *)
 Theorem C04_methods_are_C13_methods :
   forall fm (o : oracle) p ptr os n,
     shuffles o ->
@@ -242,7 +243,7 @@ Theorem C04_methods_sorted_are_C13_methods :
     shuffles o ->
     NoDup (map m_pos (pk_meths p)) ->
     Permutation (T.meths_of os) (map (T.u_of_meth ptr) (pk_meths p)) ->
-    map Uni.o_name (T.sorted_methods_of Uni.o_id (Uni.fill_tables Uni.all_fixed os) n true)
+    map Uni.o_name (Uni.methods_of Uni.all_fixed (Uni.new_pkg_tables Uni.all_fixed Uni.o_id os) n true)
     = methods_of true o p (Uni.n_origin n).
 Proof. exact Gengo.Props.Tables.Tables_methods_sorted_agree. Qed.
 Print Assumptions C04_methods_sorted_are_C13_methods.
